@@ -313,9 +313,19 @@ impl Scenario for Chaos {
     fn make(&self, seed: u64, _case: u64, _tier: Tier) -> Trial {
         let mut rng = Rng::new(seed);
         let mut extras = CmdExtras { stats_ext: "json".into(), ..Default::default() };
-        let kind = rng.below(10);
+        let kind = rng.below(11);
         let mut label;
         let (input, st): (Vec<u8>, Option<Stream>) = match kind {
+            10 if !crate::corpus::corpus().is_empty() => {
+                // the repository's sample files with byte-level corruption
+                let (_, mut b) = crate::corpus::pick(&mut rng, 300_000, false).unwrap();
+                let k = rng.below(4);
+                for _ in 0..k {
+                    corrupt::corrupt_bytes(&mut b, &mut rng);
+                }
+                label = if k > 0 { "sample-files+corrupted".to_string() } else { "sample-files".to_string() };
+                (b, None)
+            }
             0 => {
                 let len = match rng.below(5) {
                     0 => rng.below(9),
@@ -464,7 +474,14 @@ impl Scenario for Sched {
             };
             label = format!("{label}{f},");
         }
-        let input = st.bytes();
+        let mut input = st.bytes();
+        if case % 10 == 9 {
+            // the repository's sample files (12 links x 2 HBFs of detector data among them)
+            if let Some((_, b)) = crate::corpus::pick(&mut rng, 300_000, false) {
+                input = b;
+                label = "sample files".to_string();
+            }
+        }
         let mut parts: Vec<String> = if view {
             let v = VIEW_MODES[rng.usize_below(3)];
             label = format!("{} | {label}", v.join(" "));
@@ -738,11 +755,12 @@ impl Scenario for Truncate {
     }
     fn make(&self, seed: u64, case: u64, tier: Tier) -> Trial {
         let mut rng = Rng::new(seed);
+        // mixed radix: rows / small / mode vary independently of each other
         let rows_mode = case % 4 == 3;
-        let mode_i = (case % 5) as usize;
+        let mode_i = ((case / 8) % 5) as usize;
         let stave = !rows_mode && mode_i == 4;
         let mut cfg = GenCfg::swarm(&mut rng, stave);
-        let small = case % 2 == 0;
+        let small = (case / 4) % 2 == 0;
         if small {
             cfg.n_links = rng.range(1, 3) as usize;
             cfg.hbfs = (1, 2);
@@ -772,7 +790,14 @@ impl Scenario for Truncate {
         } else {
             "conforming".to_string()
         };
-        let input = st.bytes();
+        let mut input = st.bytes();
+        if case % 9 == 8 {
+            // the repository's sample files (small ones: every cut position is enumerated)
+            if let Some((_, b)) = crate::corpus::pick(&mut rng, 30_000, true) {
+                input = b;
+                label = "sample files".to_string();
+            }
+        }
         let len = input.len() as u64;
         let full_enum_limit = match tier {
             Tier::Quick => 1500,
@@ -922,13 +947,21 @@ impl Scenario for Scan {
         let n = packet_count(&mut rng, tier);
         let words = case % 2 == 0;
         let nl = rng.range(1, 6) as usize;
-        let input = if words {
+        let mut input = if words {
             let mw = *rng.pick(&[0usize, 3, 20, 200, 900]);
             gen_framed_words(&mut rng, n, mw, nl, 100, false)
         } else {
             let mp = *rng.pick(&[0usize, 64, 1000, 10_000]);
             gen_arbitrary(&mut rng, n, mp, nl)
         };
+        let mut from_corpus = false;
+        if case % 12 == 10 {
+            // the repository's well-framed sample files (word payloads laid out per the data format)
+            if let Some((_, b)) = crate::corpus::pick(&mut rng, 300_000, true) {
+                input = b;
+                from_corpus = true;
+            }
+        }
         let f = filter_from_walk(&input, &mut rng);
         let mut specs = Vec::new();
         let mut add = |parts: &[&str], im: InputMode, rng: &mut Rng| {
@@ -957,7 +990,13 @@ impl Scenario for Scan {
         }
         let label = format!(
             "{} | {}",
-            if words { "word payloads" } else { "arbitrary payloads" },
+            if from_corpus {
+                "word payloads (sample files)"
+            } else if words {
+                "word payloads"
+            } else {
+                "arbitrary payloads"
+            },
             match f {
                 Filter::None => "no filter",
                 Filter::Link(_) => "link filter",
@@ -1079,8 +1118,11 @@ impl Scenario for StatsTruth {
         let mut rng = Rng::new(seed);
         let n = packet_count(&mut rng, tier).min(3000);
         let nl = rng.range(1, 6) as usize;
-        let src = case % 3;
+        let corpus_pick = if case % 10 == 9 { crate::corpus::pick(&mut rng, 300_000, true) } else { None };
+        let from_corpus = corpus_pick.is_some();
+        let src = if corpus_pick.is_some() { 1 } else { case % 3 };
         let input = match src {
+            _ if corpus_pick.is_some() => corpus_pick.unwrap().1,
             0 => {
                 let mp = *rng.pick(&[0usize, 64, 1000, 10_000]);
                 // sane first-packet values on every packet keep the stream free of documented fatals
@@ -1150,6 +1192,7 @@ impl Scenario for StatsTruth {
         if rng.chance(1, 2) {
             benign_io(&mut spec, &mut rng);
         }
+        let label = if from_corpus { format!("{label} | sample files") } else { label };
         Trial::StatsTruth { spec, analysed, label }
     }
 }
@@ -1408,7 +1451,14 @@ impl Scenario for Truthful {
         let mut rng = Rng::new(seed);
         let mode_i = (case % 5) as usize;
         let label_src;
-        let input = if case % 2 == 0 {
+        let corpus_pick = if case % 8 == 7 { crate::corpus::pick(&mut rng, 300_000, true) } else { None };
+        let input = if let Some((_, mut b)) = corpus_pick {
+            // the repository's sample files, bits flipped inside payload words only
+            label_src = "sample files";
+            let k = rng.below(8);
+            crate::corpus::flip_word_bits(&mut b, &mut rng, k);
+            b
+        } else if case % 2 == 0 {
             label_src = "random words";
             let n = rng.range(1, 60) as usize;
             let nl = rng.range(1, 5) as usize;
@@ -1504,8 +1554,14 @@ impl Scenario for Views {
     }
     fn make(&self, seed: u64, case: u64, _tier: Tier) -> Trial {
         let mut rng = Rng::new(seed);
-        let conforming = case % 3 == 2;
-        let input = if conforming {
+        let corpus_pick = if case % 10 == 9 { crate::corpus::pick(&mut rng, 300_000, true) } else { None };
+        let from_corpus = corpus_pick.is_some();
+        let conforming = case % 3 == 2 && !from_corpus;
+        let input = if let Some((_, mut b)) = corpus_pick {
+            let k = rng.below(6);
+            crate::corpus::flip_word_bits(&mut b, &mut rng, k);
+            b
+        } else if conforming {
             let mut cfg = GenCfg::swarm(&mut rng, false);
             if rng.chance(1, 4) {
                 cfg.hbfs = (10, 30);
@@ -1520,7 +1576,8 @@ impl Scenario for Views {
             gen_framed_words(&mut rng, n, mw, nl, pu, sane)
         };
         let f = filter_from_walk(&input, &mut rng);
-        let v = VIEW_MODES[(case % 3) as usize];
+        // (view and workload kind are drawn independently of each other)
+        let v = VIEW_MODES[((case / 3) % 3) as usize];
         let mut parts = s(v);
         parts.extend(f.args());
         let im = pick_input_mode(&mut rng);
@@ -1538,7 +1595,13 @@ impl Scenario for Views {
         let label = format!(
             "{} | {} | {}",
             v.join(" "),
-            if conforming { "conforming" } else { "random words" },
+            if from_corpus {
+                "sample files"
+            } else if conforming {
+                "conforming"
+            } else {
+                "random words"
+            },
             if f == Filter::None { "no filter" } else { "filter" }
         );
         Trial::Views { plain, styled, conforming, label }
